@@ -7,6 +7,7 @@ import (
 	"fmt"
 	"io"
 	"net"
+	"os"
 	"strings"
 	"sync"
 	"time"
@@ -106,14 +107,41 @@ func (f *fakeCluster) take() []callRec {
 	return c
 }
 
-func freeAddr() string {
-	l, err := net.Listen("tcp", "127.0.0.1:0")
-	if err != nil {
-		panic(err)
+// freeAddr hands out loopback ports from a block of 100 that belongs to this process (below the
+// kernel's ephemeral range, block chosen by pid): an address handed out now may be bound seconds later
+// (an instance that starts late), and neither a parallel child process of the driver nor an outgoing
+// connection may take it in between - which happened with ports obtained from ":0".
+var (
+	portMu   sync.Mutex
+	portNext int
+)
+
+func freePort(udpToo bool) int {
+	portMu.Lock()
+	defer portMu.Unlock()
+	base := 12000 + (os.Getpid()*37%180)*100
+	for tries := 0; tries < 400; tries++ {
+		port := base + portNext%100
+		portNext++
+		l, err := net.Listen("tcp", fmt.Sprintf("127.0.0.1:%d", port))
+		if err != nil {
+			continue
+		}
+		if udpToo {
+			u, err := net.ListenPacket("udp", fmt.Sprintf("127.0.0.1:%d", port))
+			if err != nil {
+				l.Close()
+				continue
+			}
+			u.Close()
+		}
+		l.Close()
+		return port
 	}
-	defer l.Close()
-	return l.Addr().String()
+	panic("no free loopback port in this process's block")
 }
+
+func freeAddr() string { return fmt.Sprintf("127.0.0.1:%d", freePort(false)) }
 
 // assembled: one real ClusterConnection between a fake local and a fake remote cluster.
 type assembled struct {
